@@ -98,6 +98,7 @@ def generate(rng):
                         break
             scn['cmds'] = [{'n': n1, 's': s1}, {'n': n2, 's': s2}]
     scn['hup_write'] = rng.choice(['ok', 'ok', 'ok', 'eio'])
+    scn['reprompt'] = rng.random() < 0.3
     scn['vt_cap_s'] = 2000
     scn['step_cap'] = 300000
     return scn
@@ -233,6 +234,11 @@ def run(scn):
                                     tr['prompt_set_by'] = 'zsh'
                                 elif flavour == 'sh':
                                     prompt = '[PEXPECT]%(!.#.$) '
+                                tr['prompt'] = prompt
+                                continue
+                            m = re.match(r"PS1='([^']*)'$", ln)
+                            if m and flavour == 'sh':
+                                prompt = m.group(1).replace('\\$', '$')
                                 tr['prompt'] = prompt
                                 continue
                             m = re.match(r'echo (\d+) (\d+)$', ln)
@@ -389,6 +395,20 @@ def run(scn):
                 if gotb != want.encode('latin-1'):
                     V('C17.prompt', 'before after prompt() is not exactly the echoed command and its output', got=gotb[-80:], want=want[-80:])
                     break
+                if kx == 0 and scn.get('reprompt') and flavour == 'sh':
+                    # the application changes the remote prompt itself and tells the object through the public PROMPT
+                    # attribute (documented): prompt() must follow
+                    try:
+                        # (like pxssh's own unique prompt, the command that sets it does not contain it literally)
+                        s.sendline("PS1='NEWP\\$ '")
+                        s.PROMPT = 'NEWP\\$ '
+                        if not s.prompt(timeout=20):
+                            V('C17.prompt', 'prompt() timed out after the application assigned a new PROMPT and the shell printed it')
+                            break
+                        r.w.probe('prompt_attribute_reassigned')
+                    except (SimHang, pexpect.ExceptionPexpect, OSError) as e:
+                        V('C17.prompt', 'prompt() after PROMPT was reassigned failed: %s %s' % (type(e).__name__, str(e)[:120]))
+                        break
             if not out and scn.get('hang_cmd'):
                 try:
                     s.sendline('hang')
